@@ -713,6 +713,21 @@ def desugar_closure_pattern(body, rules, specs):
     k = 0
     while i < len(out):
         t = out[i]
+        if t.s == "||" and i > 0 and out[i - 1].s in ("(", ",") and i + 1 < len(out) and out[i + 1].s == "{" and k in specs:
+            # a zero-argument closure `|| { B }` in argument position: ghost annotations only (return type, ensures, proof prefix); `B` is unchanged
+            b1 = match_close(out, i + 1)
+            ty, ens = specs[k]
+            ens, _, prf = ens.partition(" :: ")
+            res = "__cq%d" % k
+            new = [Tok("p", "||", t.a, t.a), Tok("raw", " -> ( %s : %s ) ensures %s" % (res, ty, ens.replace("__q", res)), t.a, t.a), Tok("p", "{", t.a, t.a)]
+            if prf.strip():
+                new.append(Tok("raw", "proof { %s }" % prf.strip(), t.a, t.a))
+            new += out[i + 2:b1] + [Tok("p", "}", t.a, t.a)]
+            out = out[:i] + new + out[b1 + 1:]
+            rules.fired.add("R9")
+            k += 1
+            i += len(new)
+            continue
         ident_closure = (t.s == "|" and i > 0 and out[i - 1].s in ("(", ",") and i + 2 < len(out) and out[i + 1].k == "id"
                          and out[i + 2].s == "|" and k in specs)
         if ident_closure or (t.s == "|" and i > 0 and out[i - 1].s in ("(", ",") and i + 1 < len(out) and out[i + 1].s == "("):
